@@ -199,3 +199,50 @@ func init() {
 			New: "\t\t\tif c.ownerStrategy.IsController(potentialRemoteOwner, obj) {\n\t\t\t\treturn true\n\t\t\t}\n\t\t}\n\t}\n\tcontrolled := false\n\treturn controlled\n}\n"},
 	)
 }
+
+// Round three: the previous-revision search written with slices.ContainsFunc (the predicate closures
+// are the loop bodies; prev, obj and c are captured).
+func init() {
+	const pr = "internal/controllers/phase_reconciler.go"
+	const imports = "\t\"strconv\"\n\t\"strings\"\n\n\t\"github.com/go-logr/logr\"\n"
+	const importsSlices = "\t\"slices\"\n\t\"strconv\"\n\t\"strings\"\n\n\t\"github.com/go-logr/logr\"\n"
+	const loops = "\tfor _, prev := range previous {\n\t\tif c.ownerStrategy.IsController(prev.ClientObject(), obj) {\n\t\t\treturn true\n\t\t}\n\n\t\tremotePhases := prev.GetRemotePhases()\n\t\tif len(remotePhases) == 0 {\n\t\t\tcontinue\n\t\t}\n\n\t\tprevGVK, err := apiutil.GVKForObject(prev.ClientObject(), c.scheme)\n\t\tif err != nil {\n\t\t\tpanic(err)\n\t\t}\n\n\t\tvar remoteGVK schema.GroupVersionKind\n\t\tif strings.HasPrefix(prevGVK.Kind, \"Cluster\") {\n\t\t\t// ClusterObjectSet\n\t\t\tremoteGVK = corev1alpha1.GroupVersion.WithKind(\"ClusterObjectSetPhase\")\n\t\t} else {\n\t\t\t// ObjectSet\n\t\t\tremoteGVK = corev1alpha1.GroupVersion.WithKind(\"ObjectSetPhase\")\n\t\t}\n\t\tfor _, remote := range remotePhases {\n\t\t\tpotentialRemoteOwner := &unstructured.Unstructured{}\n\t\t\tpotentialRemoteOwner.SetGroupVersionKind(remoteGVK)\n\t\t\tpotentialRemoteOwner.SetName(remote.Name)\n\t\t\tpotentialRemoteOwner.SetUID(remote.UID)\n\t\t\tpotentialRemoteOwner.SetNamespace(\n\t\t\t\tprev.ClientObject().GetNamespace())\n\n\t\t\tif c.ownerStrategy.IsController(potentialRemoteOwner, obj) {\n\t\t\t\treturn true\n\t\t\t}\n\t\t}\n\t}\n\treturn false\n"
+	const search = "\treturn slices.ContainsFunc(previous, func(prev PreviousObjectSet) bool {\n\t\tif c.ownerStrategy.IsController(prev.ClientObject(), obj) {\n\t\t\treturn true\n\t\t}\n\n\t\tremotePhases := prev.GetRemotePhases()\n\t\tif len(remotePhases) == 0 {\n\t\t\treturn false\n\t\t}\n\n\t\tprevGVK, err := apiutil.GVKForObject(prev.ClientObject(), c.scheme)\n\t\tif err != nil {\n\t\t\tpanic(err)\n\t\t}\n\n\t\tvar remoteGVK schema.GroupVersionKind\n\t\tif strings.HasPrefix(prevGVK.Kind, \"Cluster\") {\n\t\t\t// ClusterObjectSet\n\t\t\tremoteGVK = corev1alpha1.GroupVersion.WithKind(\"ClusterObjectSetPhase\")\n\t\t} else {\n\t\t\t// ObjectSet\n\t\t\tremoteGVK = corev1alpha1.GroupVersion.WithKind(\"ObjectSetPhase\")\n\t\t}\n\t\treturn slices.ContainsFunc(remotePhases, func(remote corev1alpha1.RemotePhaseReference) bool {\n\t\t\tpotentialRemoteOwner := &unstructured.Unstructured{}\n\t\t\tpotentialRemoteOwner.SetGroupVersionKind(remoteGVK)\n\t\t\tpotentialRemoteOwner.SetName(remote.Name)\n\t\t\tpotentialRemoteOwner.SetUID(remote.UID)\n\t\t\tpotentialRemoteOwner.SetNamespace(\n\t\t\t\tprev.ClientObject().GetNamespace())\n\n\t\t\treturn c.ownerStrategy.IsController(potentialRemoteOwner, obj)\n\t\t})\n\t})\n"
+	addMutants(
+		Mutant{Prop: "C01", Name: "r2-benign-search-through-containsfunc", File: pr, Benign: true,
+			Old: loops, New: search, More: []Edit{{File: pr, Old: imports, New: importsSlices}}},
+		Mutant{Prop: "C01", Name: "r2-containsfunc-remote-owner-tested-against-revision", File: pr,
+			Why: "the remote phase is asked whether it controls the previous revision, not the object",
+			Old: loops, New: "\treturn slices.ContainsFunc(previous, func(prev PreviousObjectSet) bool {\n\t\tif c.ownerStrategy.IsController(prev.ClientObject(), obj) {\n\t\t\treturn true\n\t\t}\n\n\t\tremotePhases := prev.GetRemotePhases()\n\t\tif len(remotePhases) == 0 {\n\t\t\treturn false\n\t\t}\n\n\t\tprevGVK, err := apiutil.GVKForObject(prev.ClientObject(), c.scheme)\n\t\tif err != nil {\n\t\t\tpanic(err)\n\t\t}\n\n\t\tvar remoteGVK schema.GroupVersionKind\n\t\tif strings.HasPrefix(prevGVK.Kind, \"Cluster\") {\n\t\t\t// ClusterObjectSet\n\t\t\tremoteGVK = corev1alpha1.GroupVersion.WithKind(\"ClusterObjectSetPhase\")\n\t\t} else {\n\t\t\t// ObjectSet\n\t\t\tremoteGVK = corev1alpha1.GroupVersion.WithKind(\"ObjectSetPhase\")\n\t\t}\n\t\treturn slices.ContainsFunc(remotePhases, func(remote corev1alpha1.RemotePhaseReference) bool {\n\t\t\tpotentialRemoteOwner := &unstructured.Unstructured{}\n\t\t\tpotentialRemoteOwner.SetGroupVersionKind(remoteGVK)\n\t\t\tpotentialRemoteOwner.SetName(remote.Name)\n\t\t\tpotentialRemoteOwner.SetUID(remote.UID)\n\t\t\tpotentialRemoteOwner.SetNamespace(\n\t\t\t\tprev.ClientObject().GetNamespace())\n\n\t\t\treturn c.ownerStrategy.IsController(potentialRemoteOwner, prev.ClientObject())\n\t\t})\n\t})\n", More: []Edit{{File: pr, Old: imports, New: importsSlices}},
+			Expect: []string{"C01.R2@(*internal/controllers.defaultAdoptionChecker).isControlledByPreviousRevision$1$1#return-computed"}},
+		Mutant{Prop: "C01", Name: "r2-containsfunc-only-first-revision", File: pr,
+			Why: "only the first declared previous revision is examined",
+			Old: loops, New: "\treturn slices.ContainsFunc(previous[:min(1, len(previous))], func(prev PreviousObjectSet) bool {\n\t\tif c.ownerStrategy.IsController(prev.ClientObject(), obj) {\n\t\t\treturn true\n\t\t}\n\n\t\tremotePhases := prev.GetRemotePhases()\n\t\tif len(remotePhases) == 0 {\n\t\t\treturn false\n\t\t}\n\n\t\tprevGVK, err := apiutil.GVKForObject(prev.ClientObject(), c.scheme)\n\t\tif err != nil {\n\t\t\tpanic(err)\n\t\t}\n\n\t\tvar remoteGVK schema.GroupVersionKind\n\t\tif strings.HasPrefix(prevGVK.Kind, \"Cluster\") {\n\t\t\t// ClusterObjectSet\n\t\t\tremoteGVK = corev1alpha1.GroupVersion.WithKind(\"ClusterObjectSetPhase\")\n\t\t} else {\n\t\t\t// ObjectSet\n\t\t\tremoteGVK = corev1alpha1.GroupVersion.WithKind(\"ObjectSetPhase\")\n\t\t}\n\t\treturn slices.ContainsFunc(remotePhases, func(remote corev1alpha1.RemotePhaseReference) bool {\n\t\t\tpotentialRemoteOwner := &unstructured.Unstructured{}\n\t\t\tpotentialRemoteOwner.SetGroupVersionKind(remoteGVK)\n\t\t\tpotentialRemoteOwner.SetName(remote.Name)\n\t\t\tpotentialRemoteOwner.SetUID(remote.UID)\n\t\t\tpotentialRemoteOwner.SetNamespace(\n\t\t\t\tprev.ClientObject().GetNamespace())\n\n\t\t\treturn c.ownerStrategy.IsController(potentialRemoteOwner, obj)\n\t\t})\n\t})\n", More: []Edit{{File: pr, Old: imports, New: importsSlices}},
+			Expect: []string{"C01.R2@(*internal/controllers.defaultAdoptionChecker).isControlledByPreviousRevision#return-false"}},
+		Mutant{Prop: "C01", Name: "r2-containsfunc-unowned-object-counts", File: pr,
+			Why: "an object without owner references counts as controlled by a previous revision",
+			Old: loops, New: "\treturn slices.ContainsFunc(previous, func(prev PreviousObjectSet) bool {\n\t\tif c.ownerStrategy.IsController(prev.ClientObject(), obj) {\n\t\t\treturn true\n\t\t}\n\n\t\tremotePhases := prev.GetRemotePhases()\n\t\tif len(remotePhases) == 0 {\n\t\t\treturn false\n\t\t}\n\n\t\tprevGVK, err := apiutil.GVKForObject(prev.ClientObject(), c.scheme)\n\t\tif err != nil {\n\t\t\tpanic(err)\n\t\t}\n\n\t\tvar remoteGVK schema.GroupVersionKind\n\t\tif strings.HasPrefix(prevGVK.Kind, \"Cluster\") {\n\t\t\t// ClusterObjectSet\n\t\t\tremoteGVK = corev1alpha1.GroupVersion.WithKind(\"ClusterObjectSetPhase\")\n\t\t} else {\n\t\t\t// ObjectSet\n\t\t\tremoteGVK = corev1alpha1.GroupVersion.WithKind(\"ObjectSetPhase\")\n\t\t}\n\t\treturn slices.ContainsFunc(remotePhases, func(remote corev1alpha1.RemotePhaseReference) bool {\n\t\t\tpotentialRemoteOwner := &unstructured.Unstructured{}\n\t\t\tpotentialRemoteOwner.SetGroupVersionKind(remoteGVK)\n\t\t\tpotentialRemoteOwner.SetName(remote.Name)\n\t\t\tpotentialRemoteOwner.SetUID(remote.UID)\n\t\t\tpotentialRemoteOwner.SetNamespace(\n\t\t\t\tprev.ClientObject().GetNamespace())\n\n\t\t\treturn c.ownerStrategy.IsController(potentialRemoteOwner, obj) || len(obj.GetOwnerReferences()) == 0\n\t\t})\n\t})\n", More: []Edit{{File: pr, Old: imports, New: importsSlices}},
+			Expect: []string{"C01.R2@(*internal/controllers.defaultAdoptionChecker).isControlledByPreviousRevision$1$1#return-computed"}},
+	)
+}
+
+// Round three: the sub-reconciler error is reported inside the loop that runs the sub-reconcilers.
+func init() {
+	const osc = "internal/controllers/objectsets/objectset_controller.go"
+	const loop = "\tfor _, r := range c.reconciler {\n\t\tres, err = r.Reconcile(ctx, objectSet)\n\t\tif err != nil || !res.IsZero() {\n\t\t\tbreak\n\t\t}\n\t}\n\tif err != nil {\n\t\treturn controllers.UpdateObjectSetOrPhaseStatusFromError(ctx, objectSet, err,\n\t\t\tfunc(ctx context.Context) error {\n\t\t\t\treturn c.updateStatus(ctx, objectSet)\n\t\t\t})\n\t}\n"
+	const inLoop = "\tfor _, r := range c.reconciler {\n\t\tres, err = r.Reconcile(ctx, objectSet)\n\t\tif err != nil {\n\t\t\treturn controllers.UpdateObjectSetOrPhaseStatusFromError(ctx, objectSet, err,\n\t\t\t\tfunc(ctx context.Context) error {\n\t\t\t\t\treturn c.updateStatus(ctx, objectSet)\n\t\t\t\t})\n\t\t}\n\t\tif !res.IsZero() {\n\t\t\tbreak\n\t\t}\n\t}\n"
+	const inLoopRaw = "\tfor _, r := range c.reconciler {\n\t\tres, err = r.Reconcile(ctx, objectSet)\n\t\tif err != nil {\n\t\t\treturn res, err\n\t\t}\n\t\tif !res.IsZero() {\n\t\t\tbreak\n\t\t}\n\t}\n"
+	const inLoopSome = "\tfor _, r := range c.reconciler {\n\t\tres, err = r.Reconcile(ctx, objectSet)\n\t\tif err != nil && res.IsZero() {\n\t\t\treturn controllers.UpdateObjectSetOrPhaseStatusFromError(ctx, objectSet, err,\n\t\t\t\tfunc(ctx context.Context) error {\n\t\t\t\t\treturn c.updateStatus(ctx, objectSet)\n\t\t\t\t})\n\t\t}\n\t\tif !res.IsZero() {\n\t\t\tbreak\n\t\t}\n\t}\n"
+	for _, prop := range []string{"C01", "C11"} {
+		rule := map[string]string{"C01": "C01.R6@", "C11": "C11.R6@"}[prop]
+		addMutants(
+			Mutant{Prop: prop, Name: "r6-benign-error-reported-inside-loop", File: osc, Benign: true, Old: loop, New: inLoop},
+			Mutant{Prop: prop, Name: "r6-error-returned-raw-inside-loop", File: osc, Old: loop, New: inLoopRaw,
+				Why:    "sub-reconciler errors leave the controller without the CollisionDetected / PreflightError mapping",
+				Expect: []string{rule + "(*internal/controllers/objectsets.GenericObjectSetController).Reconcile"}},
+			Mutant{Prop: prop, Name: "r6-error-with-requeue-result-not-reported", File: osc, Old: loop, New: inLoopSome,
+				Why:    "an error that comes with a non-zero result breaks out of the loop and is never reported",
+				Expect: []string{rule + "(*internal/controllers/objectsets.GenericObjectSetController).Reconcile"}},
+		)
+	}
+}
